@@ -13,6 +13,9 @@ Inductive ckind :=
 (* a generated rules file: accepted by the validator? child crashed while loading / while building samplers
    and taking decisions? *)
 | KConfig (accepted load_crashed run_crashed : bool) (sig : N)   (* sig: crash signature class, 0 = unclassified *)
+(* a rules file with ONE rule without conditions (it matches every trace), no downstream sampler, this static
+   SampleRate and Drop flag; sampler built, traces decided *)
+| KRuleRate (accepted drop : bool) (rate : Z) (crashed : bool)
 (* a stream of fuzzed requests against the in-process routers (and the gRPC trace handler) *)
 | KRequests (crashed hung : bool) (caught_panics : N).
 
@@ -40,6 +43,9 @@ Definition check (c : case) : codes :=
   | KConfig acc lc rc sig =>
       (if lc then [16%N] else []) ++
       (if acc && rc then [if N.eqb sig 1 then 17%N else if N.eqb sig 2 then 18%N else 12%N] else [])
+  | KRuleRate acc drop rate cr =>
+      (if Bool.eqb (match rules_draw rules_draw_guarded drop rate with None => true | Some _ => false end) cr then [] else [code_mismatch]) ++
+      (if acc && cr then [19%N] else [])
   | KRequests cr hung caught =>
       (if cr then [13%N] else []) ++ (if hung then [14%N] else []) ++ (if N.eqb caught 0 then [] else [15%N])
   end.
